@@ -23,6 +23,17 @@ import numpy as np  # noqa: E402
 np.seterr(all='ignore')
 
 
+def _machinery_failure(tp, val, tb):
+    import traceback
+    traceback.print_exception(tp, val, tb)
+    sys.stderr.write('machinery failure (uncaught %s): exit 2\n' % tp.__name__)
+    sys.stderr.flush(); sys.stdout.flush()
+    os._exit(2)
+
+
+sys.excepthook = _machinery_failure
+
+
 def import_bct():
     import bct
     f = os.path.realpath(bct.__file__)
@@ -51,8 +62,16 @@ def _record(f, status):
     d[status] += 1
 
 
-def call(f, *a, t=3.0, **k):
-    """Run f under a SIGALRM budget with stdout swallowed -> ('ok', value) | ('exc', 'Type: msg') | ('timeout', None)."""
+def call(f, *a, t=3.0, retry=0, **k):
+    """Run f under a SIGALRM budget with stdout swallowed -> ('ok', value) | ('exc', 'Type: msg') | ('timeout', None).
+    retry=N: a timeout is re-tried once with N times the budget (for routines that are expected to return: a single
+    wall-clock hit on a loaded machine must not become a verdict)."""
+    if retry:
+        r = call(f, *a, t=t, **k)
+        if r[0] != 'timeout':
+            return r
+        _OUTCOMES.get(getattr(f, '__name__', None) or type(f).__name__, {}).__setitem__('timeout', max(0, _OUTCOMES.get(getattr(f, '__name__', None) or type(f).__name__, {'timeout': 1}).get('timeout', 1) - 1))
+        return call(f, *a, t=t * retry, **k)
     signal.signal(signal.SIGALRM, _alarm)
     signal.setitimer(signal.ITIMER_REAL, t)
     try:
@@ -191,8 +210,9 @@ def theorems_in(mod):
 
 
 def axioms_audit(mods, theorems):
-    """Compile a throw-away file printing the axioms of each theorem -> {thm: [axioms]} ; missing thm => None."""
-    body = ''.join('import %s\n' % m for m in mods) + ''.join('#print axioms %s\n' % t for t in theorems)
+    """Compile a throw-away file printing the axioms and the statement of each theorem
+    -> ({thm: [axioms]}, raw text); statements are kept in axioms_audit.statements {thm: normalised type string}."""
+    body = ''.join('import %s\n' % m for m in mods) + ''.join('#print axioms %s\n#check @%s\n' % (t, t) for t in theorems)
     d = os.path.join(LEAN, '.lake', 'audit'); os.makedirs(d, exist_ok=True)
     f = os.path.join(d, 'Audit_%d.lean' % os.getpid())
     open(f, 'w').write(body)
@@ -204,7 +224,26 @@ def axioms_audit(mods, theorems):
         res[m.group(1)] = [a.strip() for a in m.group(2).replace('\n', ' ').split(',') if a.strip()]
     for m in re.finditer(r"'([^']+)' does not depend on any axioms", txt):
         res[m.group(1)] = []
+    st = {}
+    cur = None
+    tset = set(theorems)
+    for ln in out.split('\n'):
+        m = re.match(r'@?(\S+) :\s*(.*)$', ln)
+        if m and m.group(1) in tset:
+            cur = m.group(1); st[cur] = m.group(2)
+        elif cur is not None and (ln.startswith(' ') or ln.startswith('\t')):
+            st[cur] += ' ' + ln.strip()
+        else:
+            cur = None
+    axioms_audit.statements = {k: re.sub(r'\s+', ' ', v).strip() for k, v in st.items()}
     return res, txt
+
+
+axioms_audit.statements = {}
+
+
+def pins_file(pid):
+    return os.path.join(LEAN, 'pins', pid + '.json')
 
 
 def run_driver(main, lines, timeout=900):
@@ -316,6 +355,14 @@ class Check:
         self.pid = pid
         self.tier = a.tier if a.tier in ('quick', 'thorough') else 'quick'
         self.replay = a.replay
+        if self.replay:
+            try:
+                rp = json.load(open(self.replay))
+            except Exception:
+                rp = {}
+            if 'no_longer_checks' in rp:
+                print('replay file names a broken obligation / correspondence (no failing input): re-running the whole check')
+                self.replay = None
         try:
             self.seed = int(os.environ.get('VERIF_SEED', '0'))
         except ValueError:
@@ -393,6 +440,25 @@ class Check:
         ax, txt = axioms_audit(mods, thms)
         self.checker_cmds.append('lake env lean <generated #print axioms file over %d theorems>' % len(thms))
         ok = True
+        # statement pinning: the statements of the property theorems are recorded in lean/pins/<id>.json (written only by
+        # tools/pin.py, a deliberate action); a theorem that disappears or whose statement changes is a break, so a
+        # quietly weakened theorem cannot keep the check green
+        if prop_modules and os.path.exists(pins_file(self.pid)):
+            pins = json.load(open(pins_file(self.pid)))
+            got = axioms_audit.statements
+            for t, h in sorted(pins.items()):
+                if t not in thms:
+                    continue        # reported below if its namespace is being audited
+                g = got.get(t)
+                if g is None or hashlib.sha1(g.encode()).hexdigest() != h:
+                    ok = False
+                    self.breaks.append({'kind': 'statement-changed', 'theorem': t, 'now': (g or 'missing')[:300],
+                                        'note': 'statement differs from lean/pins/%s.json (re-pin with tools/pin.py only after review)' % self.pid})
+            missing = [t for t in pins if t not in thms and t.rsplit('.', 1)[0] in {x.rsplit('.', 1)[0] for x in thms}]
+            for t in missing:
+                ok = False
+                self.breaks.append({'kind': 'statement-changed', 'theorem': t, 'now': 'theorem no longer exists'})
+            self.dist['pinned_statements'] = len(pins)
         for t in thms:
             a = ax.get(t)
             good = a is not None and set(a) <= ALLOWED_AXIOMS
